@@ -62,6 +62,31 @@ def main() -> int:
                 report.add("S-seeded", f"seeded::{meta['id']}", True if c.returncode == 1 else None, f"independently produced change {meta['id']} ({meta.get('summary', '')[:120]}) is reported by this check" if c.returncode == 1 else f"seeded change {meta['id']} is no longer reported (exit {c.returncode})", f"exit {c.returncode}", "exit 1", nontrivial=False)
             finally:
                 shutil.rmtree(tmp, ignore_errors=True)
+        # independently produced behaviour-preserving refactorings: this check must stay silent on each
+        from concurrent.futures import ThreadPoolExecutor
+
+        def run_refactor(meta_f):
+            meta = json.loads(meta_f.read_text())
+            tmp = Path(tempfile.mkdtemp(prefix="usa-refactor-"))
+            try:
+                shutil.copytree(repo.root / "unit_scaling", tmp / "unit_scaling", ignore=shutil.ignore_patterns("__pycache__", "tests"))
+                subprocess.run(["git", "init", "-q"], cwd=tmp)
+                r = subprocess.run(["git", "apply", "--whitespace=nowarn", str(meta_f.parent / "patch.diff")], cwd=tmp, capture_output=True, text=True)
+                if r.returncode != 0:
+                    return (meta["id"], None, "patch no longer applies")
+                env = dict(os.environ, USA_REPO_ROOT=str(tmp), USA_EVIDENCE_DIR=str(tmp / "ev"))
+                c = subprocess.run([sys.executable, str(verif / "usa" / "check.py"), prop, "--tier", "quick"], capture_output=True, text=True, env=env, cwd=str(verif))
+                first = next((l.strip() for l in c.stdout.splitlines() if l.strip().startswith(("violated", "ANALYSIS-ERROR"))), "")
+                return (meta["id"], c.returncode, first[:300])
+            finally:
+                shutil.rmtree(tmp, ignore_errors=True)
+
+        with ThreadPoolExecutor(8) as ex:
+            for rid, rc, msg in ex.map(run_refactor, sorted((verif / "refactors").glob("*/meta.json"))):
+                if rc is None:
+                    report.note("refactor_stale_" + rid, msg)
+                    continue
+                report.add("S-refactor", f"refactor::{rid}", True if rc == 0 else None, f"behaviour-preserving refactoring {rid}: the check stays silent" if rc == 0 else f"the check is not silent on behaviour-preserving refactoring {rid} (exit {rc}): {msg}", f"exit {rc}", "exit 0", nontrivial=False)
 
     def check_with_selftest(report, repo):
         mod.check(report, repo)
